@@ -11,6 +11,10 @@ CLAIMED = {
    text="Seeded histories of the public Driver memory API (Init, InitWithExistingPID, SelectGPU, CreateUnifiedGPU, AllocateMemory, AllocateUnifiedMemory, FreeMemory, Remap, Distribute) from several contexts/processes on small device memories, default allocator at page sizes 2^12-2^16 and buddy allocator (verif hook) at 4 KiB, with capacity exhaustion as the injected fault; after every call the real vm.PageTable is compared with a reference model (live pages mapped, page-aligned, inside the recorded device, pairwise disjoint, unrelated mappings unchanged, freed pages unmapped, in-capacity calls never crash, over-capacity calls fail with 'out of memory'). The schedule dimension is the interleaving of the contexts' calls (the allocator serialises on a mutex). Three genuine defects found and repaired (fix: commits), one recorded (buddy allocator aliasing). Exploration, not proof.",
    note="Trusted: akita vm.PageTable, the reference model; only valid calls are generated; buddy-allocator out-of-memory is treated as legal fragmentation; migration preparation is covered with C19's driver harness.",
    ref="6 (C10), 12"),
+ "C12": dict(
+   text="Seeded deterministic simulation of the real driver with all three kinds of goroutine real (1-3 application goroutines, runAsync, runEngine) on emulation platforms (1-4 GPUs, plain and unified devices) and the shipped R9 Nano timing platform, inside a testing/synctest bubble under a controlled goroutine scheduler: every goroutine parks at yield points (driver hooks, between engine events) and the controller draws who runs next, one at a time; safety oracle from data (queued chains H2D/D2D-kernel/H2D/D2D-kernel/D2H/D2H prove FIFO order, visibility of predecessors' effects and that drain returns after completion; guard zones prove isolation), liveness oracle exact (every goroutine durably blocked with work unfinished = deadlock, classified by what is pending). Three genuine defects found and repaired (fix: commits: engine-exit race, lost wake-up - the pinned suite's intermittent TestTensor hang - and a dispatcher panic with concurrent kernels). Exploration, not proof; the race-detector clause is not decided by this check.",
+   note="Trusted: testing/synctest's notion of durable blocking, the controller, yield points outside critical sections and engine events; faithful engine order. Data races (the property's last clause) are outside what the controlled scheduler decides.",
+   ref="6 (C12), 12"),
  "C15": dict(
    text="Seeded deterministic simulation of the real rob.ReorderBuffer between a scripted requester, an adversarial memory stub and a control agent over fault-injecting connections; online oracle over the complete port history (order, exactly-once, payload, forwarding, occupancy, flush semantics, liveness at quiescence). Exploration: a clean batch is evidence over the sampled (configuration, schedule, fault sequence) space, not proof.",
    note="Trusted: akita sim.Port/Buffer semantics, the harness's own stubs and oracle; links reliable and FIFO per pair (DESIGN 4.2); request classification around flush/restart as defined in DESIGN C15.",
@@ -51,7 +55,6 @@ PENDING = {
  "C05": "check not built yet (planned: host-schedule exploration under the goroutine controller, DESIGN 6 C05)",
  "C08": "check not built yet (planned: probe kernels on whole platforms, DESIGN 6 C08)",
  "C11": "check not built yet (planned: copy sequences against a shadow byte array, DESIGN 6 C11)",
- "C12": "check not built yet (planned: driver threads under the controlled goroutine scheduler, DESIGN 6 C12)",
  "C14": "check not built yet (planned: CU in a box, DESIGN 6 C14)",
 }
 
@@ -82,7 +85,7 @@ for p, r in sorted(PENDING.items()):
 na.sort(key=lambda x: x["property_id"])
 m = {
  "version": 1,
- "setup_cmd": "cd /verif/dsim && cp /repo/go.sum go.sum && GOFLAGS=-mod=mod GOPROXY=off GOTOOLCHAIN=auto go build -tags verif -o bin/check ./cmd/check",
+ "setup_cmd": "cd /verif/dsim && cp /repo/go.sum go.sum && GOFLAGS=-mod=mod GOPROXY=off GOTOOLCHAIN=auto go build -tags verif -o bin/check ./cmd/check && GOFLAGS=-mod=mod GOPROXY=off GOTOOLCHAIN=auto go test -c -tags verif -o bin/plat.test ./plat",
  "hooks": {
    "guard": "verif",
    "enable": "go build/test -tags verif (Go build tag; files verif_on.go are //go:build verif, their no-op twins verif_off.go //go:build !verif)",
